@@ -6,11 +6,12 @@ CHECKS = {
         text="The relation Valid(existing, options, strategies, metric, result) of specs/msc/ParentSelect.tla is written from the "
              "statement; TLC (MC_ParentSelect.tla) enumerates every small input (existing-parent lists with repeats, option lists "
              "with overlaps and duplicates, 0..3 strategies free/metric, metric tables over {0,1,2}), the real "
-             "ancestor.ChooseParents is run 20 times on each (options reach the strategies in Go map order; free strategies pick "
-             "first/last/random), and TLC validates every distinct logged result against Valid (ParentSelectTrace.tla). TLC also "
+             "ancestor.ChooseParents is run 21 times on each (options reach the strategies in Go map order; free strategies pick "
+             "first/last/random; the metric ranks are embedded into uint64 through seven increasing maps incl. values 2^63 apart "
+             "and MaxUint64), and TLC validates every distinct logged result against Valid (ParentSelectTrace.tla). TLC also "
              "checks that the relation is satisfiable and fixes the number of new parents for every small input.",
         note="Exploration by model enumeration: exhaustive over the bounded input alphabet (3-4 parent ids), not over all inputs; the "
-             "choice of free strategies and the order of options are left open by the relation, so only 20 executions per input "
+             "choice of free strategies and the order of options are left open by the relation, so only 21 executions per input "
              "sample that nondeterminism. Metric entries of parents that cannot be added are fixed to 0.",
         technique="TLA+ relation + TLC input enumeration (pattern S) + TLC validation of logged results (pattern T)",
         design_ref="DESIGN.md section 5 (C19), section 3 patterns S and T",
@@ -24,8 +25,8 @@ CHECKS = {
              "observation and monotone, and every explored transition is replayed on a real ancestor.QuorumIndexer (stub DagIndex "
              "returning the script's clocks, injective diff function), comparing GetGlobalMedianSeqs and GetMetricOf of every "
              "candidate clock; random walks run on long-lived indexers.",
-        note="Exhaustive within the bounded alphabet (3 validators, 2 weight vectors per quick run selected by the seed / 7 in the "
-             "thorough tier, 4-6 observation vectors). The DagIndex is a stub: the real vecfc clocks are the subject of C06 and are "
+        note="Exhaustive within the bounded alphabet (3 validators, 2 weight vectors per quick run selected by the seed, one with a "
+             "total divisible by 3 and one without / 8 in the thorough tier, 4-6 observation vectors). The DagIndex is a stub: the real vecfc clocks are the subject of C06 and are "
              "not in this loop (DESIGN.md's optional second mode was not built).",
         technique="TLA+ spec + TLC exhaustive state graph, edge replay into the Go quorum indexer (pattern R)",
         design_ref="DESIGN.md section 5 (C20), section 3 pattern R",
@@ -38,8 +39,9 @@ CHECKS = {
              "remaining time or the cap) and three scale obligations that let TLC evaluate the operators at 16 ticks per unit instead "
              "of 2^60 ns. TLC evaluates them on boundary vectors (timestamps 0, +-1, +-7, +-8, +-9, +-20 units of 2^60 ns around now "
              "with +-1 ns offsets, thresholds from MinInt64 to MaxInt64, no-peer / not-synced flags); every vector is converted to "
-             "time.Time / time.Duration and run through the real SyncedToEmit / DetectParallelInstance; verdict and wait are "
-             "compared with TLC's.",
+             "time.Time / time.Duration and run through the real SyncedToEmit / DetectParallelInstance in six representations of the "
+             "same instants (location, monotonic reading, construction; unset timestamps = the zero instant in five "
+             "representations); the set of distinct verdicts/waits must be the singleton TLC gives.",
         note="The specification is proved symbolically, the code is bound to it by boundary vectors only (each timestamp alone, "
              "pairs, triples in the thorough tier): a defect confined to unsampled timestamps is not detected. No peer / sync "
              "unfinished: an error is required, the wait is unconstrained (DESIGN.md section 7). The identity of the error is not "
@@ -52,7 +54,8 @@ CHECKS = {
         text="specs/msc/Semaphore.tla models the two-dimensional semaphore with call / linearization / return steps and is "
              "model-checked for the time-free clauses (held within capacity, grants only when fitting, nothing granted after "
              "Terminate, over-release reported). TLC enumerates driver scripts of acquire/try/release/terminate/sleep steps "
-             "(SemScenarios.tla); each script runs in real time on a real DataSemaphore (blocking calls in goroutines, a settle "
+             "(SemScenarios.tla) and scripts with two or three concurrently blocked callers of different sizes and releases that "
+             "fit only some of them (SemContention.tla); each script runs in real time on a real DataSemaphore (blocking calls in goroutines, a settle "
              "pause after every step, final Terminate) and the recorded call/ret/warn/settled lines are validated by TLC against "
              "SemaphoreTrace.tla, which searches linearization points and adds the time clauses: refusal by timeout within "
              "[timeout, timeout+150 ms], at every settled point nobody is in flight whose request fits, exceeds the capacity or is "
